@@ -1,6 +1,7 @@
 (* C04: the Hessian / Hessdiag difference quotients are exact for every quadratic function, in any dimension.
    Abstract setting: a vector space V over a field, f(x+u) = f x + L u + B u u / 2 with L linear, B symmetric bilinear. *)
-From Coq Require Import Field Setoid.
+From Coq Require Import Field Setoid ZArith.
+Require Import NDT.Arith.Ops NDT.Model.HessStencil.
 Section Quad.
 Variable R : Type.
 Variables (r0 r1 : R) (radd rmul rsub : R -> R -> R) (ropp : R -> R) (rdiv : R -> R -> R) (rinv : R -> R).
@@ -68,5 +69,63 @@ Proof. expand. unfold four, two in *. field; side. Qed.
 (* Hessdiag forward / backward first differences carry L a + B(a,a)/2: exact after the rule removes the h^1 term *)
 Lemma hessdiag_forward_id a : f (x +v a) - f0 = L a + B a a / two.
 Proof. expand. unfold two in *. field; side. Qed.
+
+(* ---- the executable stencil model (Model/HessStencil.v, tied bit-for-bit to finite_difference.py) over this field ---- *)
+Definition OpsQ : Ops R :=
+  @MkOps R r0 r1 radd rsub rmul rdiv ropp (fun t => t) (fun t => t) (fun _ => r0)
+         (fun _ _ => false) (fun _ _ => false) (fun _ _ => false) (fun _ => false) r0 r0 r0.
+Lemma two_model : HessStencil.two OpsQ = two.  Proof. reflexivity. Qed.
+Lemma four_model : HessStencil.four OpsQ = four.  Proof. reflexivity. Qed.
+
+(* entries of the model on a quadratic, with a = the increment of variable i, b = that of variable j, hi hj their (non-zero) sizes:
+   the value is B(a, b) / (hj hi), i.e. the second partial derivative *)
+Theorem hess_forward_entry_quad a b hi hj : hi <> r0 -> hj <> r0 ->
+  hess_forward_entry OpsQ (f (x +v (a +v b))) (f (x +v a)) (f (x +v b)) f0 hi hj = B a b / (hj * hi).
+Proof. intros Hi Hj. unfold hess_forward_entry; cbn. rewrite forward_id. reflexivity. Qed.
+Theorem hess_backward_entry_quad a b hi hj : hi <> r0 -> hj <> r0 ->
+  hess_forward_entry OpsQ (f (x +v (vneg a +v vneg b))) (f (x +v vneg a)) (f (x +v vneg b)) f0 (- hi) (- hj) = B a b / (hj * hi).
+Proof.
+  intros Hi Hj. unfold hess_forward_entry; cbn. rewrite backward_id.
+  assert (Ni : - hi <> r0) by (intro E; apply Hi; transitivity (- - hi); [ring | rewrite E; ring]).
+  assert (Nj : - hj <> r0) by (intro E; apply Hj; transitivity (- - hj); [ring | rewrite E; ring]).
+  field. repeat split; assumption.
+Qed.
+Theorem hess_central2_entry_quad a b hi hj : hi <> r0 -> hj <> r0 ->
+  hess_central2_entry OpsQ (f (x +v (a +v b))) (f (x +v (vneg a +v vneg b))) (f (x +v a)) (f (x +v b)) (f (x +v vneg a)) (f (x +v vneg b)) f0 hi hj
+  = B a b / (hj * hi).
+Proof.
+  intros Hi Hj. unfold hess_central2_entry. rewrite two_model. cbn.
+  pose proof (central2_id a b) as H.
+  set (N := f (x +v (a +v b)) + f (x +v (vneg a +v vneg b)) - f (x +v a) - f (x +v b) + f0 - f (x +v vneg a) - f (x +v vneg b) + f0) in *.
+  assert (E : N = two * B a b) by (rewrite <- H; field; exact two_neq0).
+  rewrite E. field. repeat split; try assumption; exact two_neq0.
+Qed.
+Theorem hess_central_diag_entry_quad a hi : hi <> r0 ->
+  hess_central_diag_entry OpsQ (f (x +v (a +v a))) (f (x +v (vneg a +v vneg a))) f0 hi = B a a / (hi * hi).
+Proof.
+  intros Hi. unfold hess_central_diag_entry. rewrite two_model, four_model. cbn.
+  pose proof (central_diag_id a) as H.
+  set (N := f (x +v (a +v a)) - two * f0 + f (x +v (vneg a +v vneg a))) in *.
+  assert (E : N = four * B a a) by (rewrite <- H; unfold four, two; field; side).
+  rewrite E. unfold four, two. field. repeat split; try assumption; side.
+Qed.
+Theorem hess_central_off_entry_quad a b hi hj : hi <> r0 -> hj <> r0 ->
+  hess_central_off_entry OpsQ (f (x +v (a +v b))) (f (x +v (a +v vneg b))) (f (x +v (vneg a +v b))) (f (x +v (vneg a +v vneg b))) hi hj = B a b / (hj * hi).
+Proof.
+  intros Hi Hj. unfold hess_central_off_entry. rewrite four_model. cbn.
+  pose proof (central_id a b) as H.
+  set (N := f (x +v (a +v b)) - f (x +v (a +v vneg b)) - f (x +v (vneg a +v b)) + f (x +v (vneg a +v vneg b))) in *.
+  assert (E : N = four * B a b) by (rewrite <- H; unfold four, two; field; side).
+  rewrite E. unfold four, two. field. repeat split; try assumption; side.
+Qed.
+(* Hessdiag partials of the model: B(a,a)/2 (central rules), L a + B(a,a)/2 (one-sided rules; the h^1 term is removed by the rule) *)
+Theorem hd_central2_quad a : hd_central2 OpsQ (f (x +v (a +v a))) (f (x +v (vneg a +v vneg a))) (f (x +v a)) (f (x +v vneg a)) f0 = B a a / two.
+Proof. unfold hd_central2. rewrite two_model, four_model. cbn. apply hessdiag_central2_id. Qed.
+Theorem hd_central_even_quad a : hd_central_even OpsQ (f (x +v a)) (f (x +v vneg a)) f0 = B a a / two.
+Proof. unfold hd_central_even. rewrite two_model. cbn. apply hessdiag_central_even_id. Qed.
+Theorem hd_forward_quad a : hd_forward OpsQ (f (x +v a)) f0 = L a + B a a / two.
+Proof. unfold hd_forward. cbn. apply hessdiag_forward_id. Qed.
+Theorem hd_backward_quad a : hd_backward OpsQ (f (x +v vneg a)) f0 = L a - B a a / two.
+Proof. unfold hd_backward. cbn. expand. unfold two in *. field; side. Qed.
 End Quad.
 
